@@ -38,7 +38,7 @@ type MemoryCache[MetadataT any] struct {
 	entries      map[CacheKey]*memoryInternalEntry[MetadataT]
 	mu           sync.RWMutex
 	locks        []sync.RWMutex
-	memoryCap    int64
+	memoryCap    atomics.Int64
 	maxCacheSize atomics.Int64
 	byteSize     atomics.Int64
 
@@ -55,7 +55,7 @@ func NewMemoryCache[MetadataT any](cfg *config.Config, memoryBudgetPercent int, 
 	c := &MemoryCache[MetadataT]{
 		entries:      make(map[CacheKey]*memoryInternalEntry[MetadataT]),
 		locks:        make([]sync.RWMutex, shardCount),
-		memoryCap:    int64(sysMem.Total) * int64(memoryBudgetPercent) / 100,
+		memoryCap:    atomics.NewInt64(int64(sysMem.Total) * int64(memoryBudgetPercent) / 100),
 		maxCacheSize: atomics.NewInt64(maxCacheSize),
 		byteSize:     atomics.NewInt64(0),
 	}
@@ -73,8 +73,9 @@ func NewMemoryCache[MetadataT any](cfg *config.Config, memoryBudgetPercent int, 
 		c.mu.Lock()
 		defer c.mu.Unlock()
 		newPercent := cfg.Cache.Memory.MemoryBudgetPercent.Read()
-		c.memoryCap = int64(sysMem.Total) * int64(newPercent) / 100
-		slog.Info("Memory budget changed", "new_percent", newPercent, "new_cap", bytesize.ByteSize(c.memoryCap))
+		newCap := int64(sysMem.Total) * int64(newPercent) / 100
+		c.memoryCap.Set(newCap) // Read by stores without holding mu
+		slog.Info("Memory budget changed", "new_percent", newPercent, "new_cap", bytesize.ByteSize(newCap))
 	}))
 
 	c.janitor = newCacheJanitor(cfg, cleanupInterval, cacheFunctions[MetadataT]{
@@ -144,16 +145,19 @@ func (c *MemoryCache[MetadataT]) Get(key CacheKey) (*Entry[MetadataT], error) {
 	entry.meta.LastAccess = time.Now()
 	metrics.Global.Cache.CacheHits.Increment()
 
+	// The caller gets its own copy of the metadata: the stored one keeps changing under the
+	// entry's lock (LastAccess, Expires on revalidation) after this call has returned.
+	metaCopy := *entry.meta
 	return &Entry[MetadataT]{
 		Data:     &memoryReadSeekCloser{bytes.NewReader(entry.data)},
-		Metadata: entry.meta,
+		Metadata: &metaCopy,
 		Stale:    stale,
 	}, nil
 }
 
 func (c *MemoryCache[MetadataT]) cacheInternal(key CacheKey, data io.Reader, expires time.Time, metadata MetadataT, evictIfFull bool) (*Entry[MetadataT], error) {
 	maxCacheSize := c.maxCacheSize.Get()
-	limit := min(maxCacheSize, c.memoryCap)
+	limit := min(maxCacheSize, c.memoryCap.Get())
 
 	if c.byteSize.Get() >= limit {
 		if evictIfFull {
@@ -203,9 +207,10 @@ func (c *MemoryCache[MetadataT]) cacheInternal(key CacheKey, data io.Reader, exp
 	incrementCacheEntries()
 	addCacheSize(&c.byteSize, int64(count))
 
+	metaCopy := *meta
 	return &Entry[MetadataT]{
 		Data:     &memoryReadSeekCloser{bytes.NewReader(dataBytes)},
-		Metadata: meta,
+		Metadata: &metaCopy,
 	}, nil
 }
 
@@ -284,5 +289,6 @@ func (c *MemoryCache[MetadataT]) GetMetadata(key CacheKey) (meta *EntryMetadata[
 	entry.meta.LastAccess = time.Now()
 	metrics.Global.Cache.CacheHits.Increment()
 
-	return entry.meta, stale, nil
+	metaCopy := *entry.meta
+	return &metaCopy, stale, nil
 }
